@@ -1,10 +1,9 @@
 import TracklibVerif.Lemmas.Expr
-/-! `Min` / `Max` as coded (a fold from the sentinels `+1e300` / `-1e300` with a strict comparison) against the
-documented `min(x)` / `max(x)`: under the two order laws of `lt` that the folds need, the result is a bound of every
-value and is attained — by a value of the vector that is beyond the sentinel, or by the sentinel itself. So `MIN` is
-the minimum of the values exactly when one of them is below `1e300`; otherwise it is `1e300` (finding class
-`extremum-beyond-sentinel`). NaN compares false with everything, so it is never selected and the bounds hold
-for it vacuously. -/
+/-! `Min` / `Max` as coded (a fold from `+inf` / `-inf` with a strict comparison; fix 68863c7, the start values used to
+be `±1e300`) against the documented `min(x)` / `max(x)`: under the order laws of `lt` that the folds need — strict,
+transitive, `+inf` above and `-inf` below every number, NaN comparing false — the result is the extremum of the
+non-NaN values at every magnitude: a non-NaN value of the vector with nothing beyond it. On an empty or all-NaN
+vector the start value comes back. -/
 namespace TV.Expr
 open Scalar
 variable {α : Type} [Scalar α]
@@ -98,34 +97,60 @@ theorem foldMax_spec (L : OrdLaws α) (c : List α) : ∀ (m0 : α),
         · exact Or.inl h3
         · exact Or.inr ⟨List.mem_cons_of_mem _ h3, h4⟩
 
-/-- **`MIN` as coded**: no value is below the result; the result is a value of the vector below the sentinel, or the
-    sentinel `1e300` itself -/
+/-- `+inf` is above and `-inf` below every number; NaN compares false (IEEE), the infinities are numbers -/
+structure TopLaws (α : Type) [Scalar α] : Prop where
+  top : ∀ a : α, isNaN a = false → lt a inf = true ∨ a = inf
+  bot : ∀ a : α, isNaN a = false → lt (neg inf) a = true ∨ a = neg inf
+  nan_lt : ∀ a b : α, isNaN a = true → lt a b = false
+  lt_nan : ∀ a b : α, isNaN b = true → lt a b = false
+  inf_num : isNaN (inf : α) = false
+  ninf_num : isNaN (neg inf : α) = false
+
+/-- **`MIN` as coded**: no value is below the result; the result is `+inf` (the start value) or a value of the
+    vector below it -/
 theorem minL_spec (L : OrdLaws α) (c : List α) :
-    (∀ v ∈ c, lt v (minL c) = false) ∧ (minL c = big ∨ (minL c ∈ c ∧ lt (minL c) big = true)) :=
-  foldMin_spec L c big
+    (∀ v ∈ c, lt v (minL c) = false) ∧ (minL c = inf ∨ (minL c ∈ c ∧ lt (minL c) inf = true)) :=
+  foldMin_spec L c inf
 
-/-- **`MAX` as coded**: no value is above the result; the result is a value of the vector above the sentinel
-    `-1e300`, or the sentinel itself -/
 theorem maxL_spec (L : OrdLaws α) (c : List α) :
-    (∀ v ∈ c, lt (maxL c) v = false) ∧ (maxL c = neg big ∨ (maxL c ∈ c ∧ lt (neg big) (maxL c) = true)) :=
-  foldMax_spec L c (neg big)
+    (∀ v ∈ c, lt (maxL c) v = false) ∧ (maxL c = neg inf ∨ (maxL c ∈ c ∧ lt (neg inf) (maxL c) = true)) :=
+  foldMax_spec L c (neg inf)
 
-/-- hence, as soon as one value is below the sentinel, `MIN` is the minimum of the vector: it belongs to it and
-    nothing is below it -/
-theorem minL_is_minimum (L : OrdLaws α) (c : List α) (w : α) (hw : w ∈ c) (hlt : lt w big = true) :
-    minL c ∈ c ∧ ∀ v ∈ c, lt v (minL c) = false := by
+/-- as soon as the vector holds one number (a non-NaN value, of any magnitude, the infinities included), `MIN` is
+    the minimum of its numbers: a non-NaN value of the vector, and nothing is below it -/
+theorem minL_is_minimum (L : OrdLaws α) (T : TopLaws α) (c : List α) (w : α) (hw : w ∈ c) (hn : isNaN w = false) :
+    minL c ∈ c ∧ isNaN (minL c) = false ∧ ∀ v ∈ c, lt v (minL c) = false := by
   obtain ⟨h1, h2⟩ := minL_spec L c
-  refine ⟨?_, h1⟩
-  rcases h2 with h2 | ⟨h2, _⟩
-  · have := h1 w hw; rw [h2, hlt] at this; cases this
-  · exact h2
+  rcases h2 with h2 | ⟨h2, h3⟩
+  · rcases T.top w hn with ht | ht
+    · have := h1 w hw; rw [h2, ht] at this; cases this
+    · refine ⟨by rw [h2, ← ht]; exact hw, by rw [h2]; exact T.inf_num, h1⟩
+  · refine ⟨h2, ?_, h1⟩
+    cases hnan : isNaN (minL c) with
+    | false => rfl
+    | true => rw [T.nan_lt _ _ hnan] at h3; cases h3
 
-theorem maxL_is_maximum (L : OrdLaws α) (c : List α) (w : α) (hw : w ∈ c) (hlt : lt (neg big) w = true) :
-    maxL c ∈ c ∧ ∀ v ∈ c, lt (maxL c) v = false := by
+theorem maxL_is_maximum (L : OrdLaws α) (T : TopLaws α) (c : List α) (w : α) (hw : w ∈ c) (hn : isNaN w = false) :
+    maxL c ∈ c ∧ isNaN (maxL c) = false ∧ ∀ v ∈ c, lt (maxL c) v = false := by
   obtain ⟨h1, h2⟩ := maxL_spec L c
-  refine ⟨?_, h1⟩
-  rcases h2 with h2 | ⟨h2, _⟩
-  · have := h1 w hw; rw [h2, hlt] at this; cases this
-  · exact h2
+  rcases h2 with h2 | ⟨h2, h3⟩
+  · rcases T.bot w hn with ht | ht
+    · have := h1 w hw; rw [h2, ht] at this; cases this
+    · refine ⟨by rw [h2, ← ht]; exact hw, by rw [h2]; exact T.ninf_num, h1⟩
+  · refine ⟨h2, ?_, h1⟩
+    cases hnan : isNaN (maxL c) with
+    | false => rfl
+    | true => rw [T.lt_nan _ _ hnan] at h3; cases h3
+
+/-- on an empty or all-NaN vector the start values come back: `MIN = +inf`, `MAX = -inf` -/
+theorem minmax_of_no_number (L : OrdLaws α) (T : TopLaws α) (c : List α) (h : ∀ v ∈ c, isNaN v = true) :
+    minL c = inf ∧ maxL c = neg inf := by
+  constructor
+  · rcases (minL_spec L c).2 with h2 | ⟨h2, h3⟩
+    · exact h2
+    · rw [T.nan_lt _ _ (h _ h2)] at h3; cases h3
+  · rcases (maxL_spec L c).2 with h2 | ⟨h2, h3⟩
+    · exact h2
+    · rw [T.lt_nan _ _ (h _ h2)] at h3; cases h3
 
 end TV.Expr
